@@ -117,7 +117,8 @@ def oracle(ctx, kind, p):
         k = p['i'] % 3
         if k == 0:
             n = rng.randrange(0, 9)
-            triples = [(rng.choice(SRC), rng.choice(ROLES), rng.choice(TGT)) for _ in range(n)]
+            src = SRC + ([''] if p['i'] % 7 == 0 else [])      # a falsy variable: "top is not set"
+            triples = [(rng.choice(src), rng.choice(ROLES), rng.choice(TGT)) for _ in range(n)]
             top = rng.choice([None, None, 'a', 'b', 'zz'])
         elif k == 1:
             # several components, each internally connected; concepts spelled like variables
